@@ -23,6 +23,16 @@ theorem C16_fact_inplace_order :
     callsRollbackInPlace = ["transactionalImport", "ReconfigureProcessor"] ∧
     callsTransactionalImport = ["NewTransaction", "importPipeline", "Commit"] := by decide
 
+/-- what the plan hash binds: `Diff.computeHash` digests PipelineID, Changes and Desired, and
+every field of each `Change` reaches it — in particular `ConfigPaths` (which fields of the
+*current* state differ; two plans with the same set of changes but different paths are
+different plans), `LiveSwappable`, `Effect` and `Code`. This is the view `Model/Live.lean`
+(`PlanView`, `Change`) compares in `applyPlanLive`'s staleness test. -/
+theorem C16_fact_hash_inputs :
+    hashFields = ["PipelineID", "Changes", "Desired"] ∧
+    ["Resource", "ID", "Action", "Effect", "ConfigPaths", "LiveSwappable", "Code"].all hashChangeFields.contains = true := by
+  decide
+
 /-- "re-check precedes gate": `ApplyPlanLive` reads the running status twice (the second read
 closes the window in which an external `Start` can land) and *both* reads come before the
 authorisation gate `if running && !allowRestartOnRunning` — the order `Model/Live.lean`
